@@ -770,7 +770,7 @@ def gen_recipe(r, version, subs, dyn=False):
 
 
 def gen_target(r, kind=None) -> dict:
-    kind = kind or r.choice(["recipe", "recipe", "recipe-dyn", "abi", "abi", "router", "router", "tmpl", "probe", "session"])
+    kind = kind or r.choice(["recipe", "recipe", "recipe-dyn", "abi", "abi", "router", "router", "tmpl", "probe", "session", "recspill"])
     t = {"kind": kind}
     if kind in ("recipe", "recipe-dyn", "tmpl", "probe"):
         v = r.choice([5, 6, 7, 8, 9, 10])
@@ -790,6 +790,14 @@ def gen_target(r, kind=None) -> dict:
                  bare=r.random() < 0.7)
     elif kind == "session":
         t.update(ops=gen_session(r, r.choice([8, 12, 18])))
+    elif kind == "recspill":
+        # a routine that can re-enter itself with several locals live across the call: the spill/restore sequence
+        # enumerates the routine's local slots.  Slot numbers that are equal modulo a small power of two (8, 16, 24 ...)
+        # collide in a hash table of ints, where iteration order follows insertion order, i.e. process history
+        base = r.choice([8, 16, 32])
+        ids = sorted(r.sample([base * i for i in range(1, 255 // base + 1)], r.choice([2, 3, 4])))
+        t.update(ids=ids, autos=r.choice([0, 1, 3, 9]), version=r.choice([4, 5, 6, 7, 8, 10]), other=r.choice([6, 8, 10]),
+                 frame_pointers=r.choice([None, False]), mutual=r.random() < 0.4)
     return t
 
 
@@ -1027,6 +1035,43 @@ def run_target(pt, t) -> dict:
             out["r4"] = outcome(lambda: rc(holder["r"], t["va"]))
         out["fresh"] = outcome(lambda: rc(mk(), t["va"]))
         same.append(["r1", "r2", "r4", "fresh"])
+    elif k == "recspill":
+        def build():
+            U = pt.TealType.uint64
+
+            def body(n, other):
+                req = [pt.ScratchVar(U, i) for i in t["ids"]]
+                au = [pt.ScratchVar(U) for _ in range(t["autos"])]
+                allv = req + au
+                total = pt.Int(0)
+                for v in allv:
+                    total = total + v.load()
+                return pt.Seq(*[v.store(n + pt.Int(j)) for j, v in enumerate(allv)],
+                              pt.If(n > pt.Int(0)).Then(pt.Pop(other(n - pt.Int(1)))), total)
+
+            @pt.Subroutine(U)
+            def walk(n):
+                return body(n, walk2 if t["mutual"] else walk)
+
+            @pt.Subroutine(U)
+            def walk2(n):
+                return body(n, walk)
+            return pt.Return(walk(pt.Int(3)))
+        kw = {}
+        if t["frame_pointers"] is not None and t["version"] >= 8:
+            kw["optimize"] = pt.OptimizeOptions(frame_pointers=t["frame_pointers"])
+        holder = {}
+
+        def c1():
+            holder["ast"] = build()
+            return pt.compileTeal(holder["ast"], pt.Mode.Application, version=t["version"], **kw)
+        out["c1"] = outcome(c1)
+        if "ast" in holder:
+            out["c2"] = outcome(lambda: pt.compileTeal(holder["ast"], pt.Mode.Application, version=t["version"], **kw))
+            out["other"] = outcome(lambda: pt.compileTeal(holder["ast"], pt.Mode.Application, version=t["other"]))
+            out["c3"] = outcome(lambda: pt.compileTeal(holder["ast"], pt.Mode.Application, version=t["version"], **kw))
+        out["rebuild"] = outcome(lambda: pt.compileTeal(build(), pt.Mode.Application, version=t["version"], **kw))
+        same.append(["c1", "c2", "c3", "rebuild"])
     elif k == "session":
         S = RealSession()
         S.env, S.info, S.routers = {}, {}, {}
@@ -1270,7 +1315,7 @@ def part_b(rep: Report, n_targets: int, hist_kinds: list[str], hashseeds: list[s
     """targets are processed in waves; a thorough run stops launching waves when its time budget is used up
     (the evidence reports the number of targets actually run)"""
     P = Predictor()
-    kinds_cycle = ["recipe", "abi", "router", "recipe-dyn", "session", "router", "tmpl", "abi", "probe", "router", "recipe", "session"]
+    kinds_cycle = ["recipe", "abi", "router", "recspill", "recipe-dyn", "session", "router", "tmpl", "abi", "probe", "router", "recipe", "session", "recspill"]
     t_start = time.time()
     done = 0
     for w0 in range(0, n_targets, wave):
